@@ -167,7 +167,7 @@ func payloadJSON(email, emr, evr string) string {
 	}
 }
 
-var b64Names = []string{"url-nopad", "url-padded", "std-alphabet", "illegal-char", "cut-short"}
+var b64Names = []string{"url-nopad", "url-padded", "std-alphabet", "illegal-char", "cut-short", "data-after-padding"}
 
 func b64seg(class int, raw string) string {
 	switch class {
@@ -180,6 +180,10 @@ func b64seg(class int, raw string) string {
 	case 3:
 		s := base64.RawURLEncoding.EncodeToString([]byte(raw))
 		return s[:len(s)/2] + "!" + s[len(s)/2+1:]
+	case 5:
+		// the complete, correctly padded encoding followed by one more quantum: a decoder that stops at the
+		// first error has already seen the whole payload
+		return base64.URLEncoding.EncodeToString([]byte(raw)) + "QUJD"
 	}
 	s := base64.RawURLEncoding.EncodeToString([]byte(raw))
 	return s[:len(s)-1]
